@@ -121,6 +121,8 @@ def r2_attrs(ctx, cfg):
         # classify
         if pred == "is_empty" and len(args) == 1 and _is_trim_of(args[0], "key"):
             kind = "empty-key"
+        elif pred == "eq" and len(args) == 2 and any(_is_trim_of(a, "key") for a in args) and any(peel(a) in (("const", "str", ""), ("const", "tyconst", '""')) for a in args):
+            kind = "empty-key"       # `match key.trim() { "" => .. }` / `key.trim() == ""`
         elif pred == "starts_with" and len(args) == 2 and _is_trim_of(args[0], "key") and peel(args[1]) == ("const", "int", ord("_")):
             kind = "underscore-key"
         elif pred in ("is_empty", "starts_with", "eq", "lt", "contains", "ends_with") and any(contains(a, lambda x: x[0] == "field" and x[2] == "value") for a in args):
